@@ -32,6 +32,7 @@
 #include <set>
 #include <unistd.h>
 #include <sys/stat.h>
+#include <sys/time.h>
 
 using namespace verif;
 using WorldBuilder::World;
@@ -1130,7 +1131,10 @@ int main(int argc, char **argv)
     mkdir(wd.c_str(), 0777);
     if (chdir(wd.c_str()) != 0) { std::cerr << "cannot chdir to " << wd << "\n"; return 2; }
   }
+  // the per-behaviour limit counts the CPU time of this process (ITIMER_PROF), not wall-clock time: a loaded machine
+  // must not turn a slow run into a "does not terminate" report; a generous wall-clock alarm remains as a back-stop
   std::signal(SIGALRM, on_alarm);
+  std::signal(SIGPROF, on_alarm);
   std::set_terminate(on_terminate);
   std::ifstream in(argv[1]);
   if (!in) { std::cerr << "cannot open " << argv[1] << "\n"; return 2; }
@@ -1153,10 +1157,18 @@ int main(int argc, char **argv)
           cur_labels = d.HasMember("labels") ? dump(d["labels"]) : "[]";
           mismatches_this_behaviour = 0;
           std::cout << "@ " << index << std::endl;
-          alarm(timeout_s);
+          {
+            struct itimerval tv; std::memset(&tv, 0, sizeof tv); tv.it_value.tv_sec = timeout_s;
+            setitimer(ITIMER_PROF, &tv, nullptr);
+            alarm(timeout_s * 20);
+          }
           Runner r;
           r.run(d, d);
-          alarm(0);
+          {
+            struct itimerval tv; std::memset(&tv, 0, sizeof tv);
+            setitimer(ITIMER_PROF, &tv, nullptr);
+            alarm(0);
+          }
           ++stats.behaviours;
         }
     }
